@@ -447,7 +447,18 @@ func cmdCheck(args []string) int {
 	}
 	var unclDs []Discharged
 	if *tier == "thorough" {
-		unclDs = dischargeAll(ctx, unclaimed, 20, *par, "")
+		// the thorough tier also tries (a sample of) the obligations that are not
+		// claimed, for the record only: their status is reported, never judged
+		sample := unclaimed
+		if len(sample) > 40 {
+			step := len(sample) / 40
+			var pick []*Obligation
+			for i := 0; i < len(sample) && len(pick) < 40; i += step {
+				pick = append(pick, sample[i])
+			}
+			sample = pick
+		}
+		unclDs = dischargeAll(ctx, sample, 10, *par, "")
 	}
 	solverTime := 0.0
 	var evid []oblEvidence
